@@ -13,20 +13,27 @@ fact; receivers, parameters (`ctx`, `node`, `r`, …), fields, methods, callees 
 names keep their names.  Renaming a local (`cachedBytes` → `fromCache`) therefore leaves every
 fact as it is, while moving, adding, dropping or changing a statement does not.  Reading aid for
 `skeleton`: ‹0› cache node, ‹1› now, ‹2› timestamp, ‹3› expiry, ‹4› cacheValid, ‹5› cacheFound,
-‹6› cached bytes, ‹7› err, ‹8› downloaded bytes, ‹9› checksum, ‹10› prompt.
+‹6› cached bytes, ‹7› err, ‹8› the closure that hands on the cached bytes, ‹12› downloaded bytes,
+‹13› checksum, ‹14› prompt.
 
 The comparisons are closed by `rfl` (kernel comparison of string literals, 0.3 s) rather than
 `decide` (same statement, 15 s through `String.decEq`).
 
-`remote_skeleton_ok` expects the **repaired** fallback (`if cacheFound`, fix F16); the tree
-as it was had `if ctx.Err() != nil && cacheFound` there.
+`remote_skeleton_ok` expects the **repaired** fallback (`if cacheFound`, fix F16; the tree as it was
+had `if ctx.Err() != nil && cacheFound` there), the recheck of the cached copy (R8-3) and the stored
+location (R8-2); `remote_httpClient_ok`, `remote_httpDoers_ok`, `remote_httpDefaultClientUses_ok` the
+redirect policy (R8-1); `remote_readContextUses_ok`, `remote_gitReadContext_ok`, `remote_newGitNode_ok`
+the git node (R8-4, R8-5); `remote_remoteExists_ok` the default-name probe (R8-6).
 -/
 namespace TaskModel.Remote
 open TaskModel
 
-/-- `(*Reader).readRemoteNodeContent` — the decision table in front of the fetch (`readRemote`),
-the fallback after a failed fetch (`fetch`, repaired rule: `cacheFound` alone), the prompt, the
-three cache writes in the order checksum, timestamp, content (`written`). -/
+/-- `(*Reader).readRemoteNodeContent` — the recheck of the cached copy (`usable`: a copy whose checksum
+is not the stored one is turned into "no cache" before anything looks at it), the decision table in
+front of the fetch (`readRemote`), the fallback after a failed fetch (`fetch`, repaired rule:
+`cacheFound` alone), the prompt, the four cache writes in the order checksum, timestamp, location,
+content (`written`); every return of the cached bytes goes through ‹8›, which first hands the stored
+location back to the node (`baseOf`). -/
 theorem remote_skeleton_ok : Gen.Remote.skeleton = [
     "‹0› := NewCacheNode(node, r.tempDir)",
     "‹1› := time.Now().UTC()",
@@ -35,6 +42,11 @@ theorem remote_skeleton_ok : Gen.Remote.skeleton = [
     "‹4› := ‹1›.Before(‹3›)",
     "var ‹5› bool",
     "‹6›, ‹7› := ‹0›.Read()",
+    "if ‹7› == nil && checksum(‹6›) != ‹0›.ReadChecksum()",
+    "| ‹6›, ‹7› = nil, os.ErrNotExist",
+    "‹8› := func() ([]byte, error) { if ‹9›, ‹10› := node.(resolvingNode); ‹10› { if",
+    "\\ ‹11› := ‹0›.ReadResolvedLocation(); ‹11› != \"\" {",
+    "\\ ‹9›.setResolvedLocation(‹11›) } } return ‹6›, nil }",
     "switch",
     "case errors.Is(‹7›, os.ErrNotExist):",
     "| if r.offline",
@@ -42,33 +54,36 @@ theorem remote_skeleton_ok : Gen.Remote.skeleton = [
     "case !‹4›:",
     "| ‹5› = true",
     "| if r.offline",
-    "| | return ‹6›, nil",
+    "| | return ‹8›()",
     "case ‹7› != nil:",
     "| return nil, ‹7›",
     "default:",
     "| if !r.download",
-    "| | return ‹6›, nil",
+    "| | return ‹8›()",
     "| ‹5› = true",
-    "‹8›, ‹7› := node.ReadContext(ctx)",
+    "‹12›, ‹7› := node.ReadContext(ctx)",
     "if ‹7› != nil",
     "| if ‹5›",
     "| | if ‹4›",
     "| | else",
-    "| | return ‹6›, nil",
+    "| | return ‹8›()",
     "| return nil, ‹7›",
-    "‹9› := checksum(‹8›)",
-    "‹10› := ‹0›.ChecksumPrompt(‹9›)",
-    "if ‹10› != \"\"",
-    "| if ‹11› := func() error { r.promptMutex.Lock() defer r.promptMutex.Unlock() return",
-    "\\ r.promptf(‹10›, node.Location()) }(); ‹11› != nil",
+    "‹13› := checksum(‹12›)",
+    "‹14› := ‹0›.ChecksumPrompt(‹13›)",
+    "if ‹14› != \"\"",
+    "| if ‹15› := func() error { r.promptMutex.Lock() defer r.promptMutex.Unlock() return",
+    "\\ r.promptf(‹14›, node.Location()) }(); ‹15› != nil",
     "| | return nil, &errors.TaskfileNotTrustedError{URI: node.Location()}",
-    "if ‹12› := ‹0›.WriteChecksum(‹9›); ‹12› != nil",
-    "| return nil, ‹12›",
-    "if ‹13› := ‹0›.WriteTimestamp(‹1›); ‹13› != nil",
-    "| return nil, ‹13›",
-    "if ‹7› = ‹0›.Write(‹8›); ‹7› != nil",
+    "if ‹16› := ‹0›.WriteChecksum(‹13›); ‹16› != nil",
+    "| return nil, ‹16›",
+    "if ‹17› := ‹0›.WriteTimestamp(‹1›); ‹17› != nil",
+    "| return nil, ‹17›",
+    "if ‹18›, ‹19› := node.(resolvingNode); ‹19›",
+    "| if ‹20› := ‹0›.WriteResolvedLocation(‹18›.resolvedLocation()); ‹20› != nil",
+    "| | return nil, ‹20›",
+    "if ‹7› = ‹0›.Write(‹12›); ‹7› != nil",
     "| return nil, ‹7›",
-    "return ‹8›, nil"] := by rfl
+    "return ‹12›, nil"] := by rfl
 
 /-- every `RemoteNode` goes through `readRemoteNodeContent` -/
 theorem remote_readNodeContent_ok : Gen.Remote.readNodeContent = [
@@ -102,7 +117,7 @@ theorem remote_readTimestamp_ok : Gen.Remote.readTimestamp = [
     "| return time.Time{}.UTC()",
     "return ‹2›.UTC()"] := by rfl
 
-/-- `gate`: 105 when the node is created -/
+/-- `gate`: 105 when the node is created; the node remembers `insecure` for its redirect policy -/
 theorem remote_newHTTPNode_ok : Gen.Remote.newHTTPNode = [
     "‹0› := NewBaseNode(dir, opts...)",
     "‹1›, ‹2› := url.Parse(entrypoint)",
@@ -110,30 +125,36 @@ theorem remote_newHTTPNode_ok : Gen.Remote.newHTTPNode = [
     "| return nil, ‹2›",
     "if ‹1›.Scheme == \"http\" && !insecure",
     "| return nil, &errors.TaskfileNotSecureError{URI: entrypoint}",
-    "return &HTTPNode{ BaseNode: ‹0›, URL: ‹1›, entrypoint: entrypoint, }, nil"] := by rfl
+    "return &HTTPNode{ BaseNode: ‹0›, URL: ‹1›, entrypoint: entrypoint, insecure: insecure,",
+    "\\ }, nil"] := by rfl
 
-/-- `Fail.code`: which failure of the fetch carries which error; a dead context passes through unwrapped -/
+/-- `Fail.code`: which failure of the fetch carries which error; a dead context passes through
+unwrapped, a refused redirect as `TaskfileNotSecureError` (105); ‹0› — the client both the probe and
+the GET are made with — is `node.client()` -/
 theorem remote_httpReadContext_ok : Gen.Remote.httpReadContext = [
-    "‹0›, ‹1› := RemoteExists(ctx, node.URL)",
-    "if ‹1› != nil",
-    "| return nil, ‹1›",
-    "node.URL = ‹0›",
-    "‹2›, ‹1› := http.NewRequest(\"GET\", node.URL.String(), nil)",
-    "if ‹1› != nil",
+    "‹0› := node.client()",
+    "‹1›, ‹2› := RemoteExists(ctx, ‹0›, node.URL)",
+    "if ‹2› != nil",
+    "| return nil, ‹2›",
+    "node.URL = ‹1›",
+    "‹3›, ‹2› := http.NewRequest(\"GET\", node.URL.String(), nil)",
+    "if ‹2› != nil",
     "| return nil, errors.TaskfileFetchFailedError{URI: node.URL.String()}",
-    "‹3›, ‹1› := http.DefaultClient.Do(‹2›.WithContext(ctx))",
-    "if ‹1› != nil",
+    "‹4›, ‹2› := ‹0›.Do(‹3›.WithContext(ctx))",
+    "if ‹2› != nil",
     "| if ctx.Err() != nil",
-    "| | return nil, ‹1›",
+    "| | return nil, ‹2›",
+    "| if ‹5› := (&errors.TaskfileNotSecureError{}); errors.As(‹2›, &‹5›)",
+    "| | return nil, ‹5›",
     "| return nil, errors.TaskfileFetchFailedError{URI: node.URL.String()}",
-    "defer ‹3›.Body.Close()",
-    "if ‹3›.StatusCode != http.StatusOK",
+    "defer ‹4›.Body.Close()",
+    "if ‹4›.StatusCode != http.StatusOK",
     "| return nil, errors.TaskfileFetchFailedError{ URI: node.URL.String(), HTTPStatusCode:",
-    "\\ ‹3›.StatusCode, }",
-    "‹4›, ‹1› := io.ReadAll(‹3›.Body)",
-    "if ‹1› != nil",
-    "| return nil, ‹1›",
-    "return ‹4›, nil"] := by rfl
+    "\\ ‹4›.StatusCode, }",
+    "‹6›, ‹2› := io.ReadAll(‹4›.Body)",
+    "if ‹2› != nil",
+    "| return nil, ‹2›",
+    "return ‹6›, nil"] := by rfl
 
 /-- `gate`: the experiment switch is tested after the node was made and *replaces* the
 constructor's error (a failed `NewHTTPNode` leaves a typed-nil `*HTTPNode` in `node`, which passes
@@ -213,8 +234,8 @@ theorem remote_runClearCache_ok : Gen.Remote.runClearCache = [
 
 /-- inside `readRemoteNodeContent`, the statements that mention the parameter `ctx`, call
 `NewCacheNode`, call `Read` on the variable its result went to (‹0›), or return the variable
-*that* call's result went to (‹1›, the cached bytes) — selected by these data-flow facts, not by
-variable names — in source order: the cache is read and — where no network is needed
+*that* call's result went to (‹1›, the cached bytes) or call the local function that returns it (‹3›) —
+selected by these data-flow facts, not by variable names — in source order: the cache is read and — where no network is needed
 (`--offline`, unexpired cache without `--download`) — returned **before `ctx` is looked at for the
 first time**, and the only use of `ctx` is handing it to `node.ReadContext`, whose failure falls
 back to the cached bytes.  A node whose read starts after the shared deadline therefore behaves
@@ -222,16 +243,20 @@ like one whose fetch timed out (`Chain.net2`); an early `ctx.Err()` return would
 theorem remote_cacheBeforeCtx_ok : Gen.Remote.cacheBeforeCtx = [
     "‹0› := NewCacheNode(node, r.tempDir)",
     "‹1›, ‹2› := ‹0›.Read()",
-    "| | return ‹1›, nil",
-    "| | return ‹1›, nil",
-    "‹3›, ‹2› := node.ReadContext(ctx)",
-    "| | return ‹1›, nil"] := by rfl
+    "‹3› := func() ([]byte, error) { if ‹4›, ‹5› := node.(resolvingNode); ‹5› { if",
+    "\\ ‹6› := ‹0›.ReadResolvedLocation(); ‹6› != \"\" {",
+    "\\ ‹4›.setResolvedLocation(‹6›) } } return ‹1›, nil }",
+    "| | return ‹3›()",
+    "| | return ‹3›()",
+    "‹7›, ‹2› := node.ReadContext(ctx)",
+    "| | return ‹3›()"] := by rfl
 
 /-- every use of `ctx` on the way from `Reader.Read` to the HTTP requests: the context `Read` was
 given is handed down unchanged — never re-assigned, never wrapped — through `include` (to
 `readNode` for the node itself and to the recursive `include` for each included node), `readNode`,
 `readNodeContent`, `readRemoteNodeContent`, `ReadContext`, `RemoteExists` (`Chain.spent`: node 2
-reads under node 1's deadline) -/
+reads under node 1's deadline); `RemoteExists` looks at `ctx.Err()` after the first request AND after
+every request for a default name (fix R8-6: a deadline that expires there is 108, not 103) -/
 theorem remote_ctxFlow_ok : Gen.Remote.ctxFlow = [
     "Reader.Read: r.include(ctx, node)",
     "Reader.include: r.readNode(ctx, node)",
@@ -239,10 +264,12 @@ theorem remote_ctxFlow_ok : Gen.Remote.ctxFlow = [
     "Reader.readNode: r.readNodeContent(ctx, node)",
     "Reader.readNodeContent: r.readRemoteNodeContent(ctx, ‹0›)",
     "Reader.readRemoteNodeContent: node.ReadContext(ctx)",
-    "HTTPNode.ReadContext: RemoteExists(ctx, node.URL)",
-    "HTTPNode.ReadContext: ‹0›.WithContext(ctx)",
+    "HTTPNode.ReadContext: RemoteExists(ctx, ‹0›, node.URL)",
+    "HTTPNode.ReadContext: ‹1›.WithContext(ctx)",
     "HTTPNode.ReadContext: ctx.Err()",
     "RemoteExists: http.NewRequestWithContext(ctx, \"HEAD\", u.String(), nil)",
+    "RemoteExists: ctx.Err()",
+    "RemoteExists: ctx.Err()",
     "RemoteExists: ctx.Err()",
     "RemoteExists: ctx.Err()"] := by rfl
 
@@ -294,5 +321,134 @@ theorem remote_httpResolveEntrypoint_ok : Gen.Remote.httpResolveEntrypoint = [
     "if ‹1› != nil",
     "| return \"\", ‹1›",
     "return node.URL.ResolveReference(‹0›).String(), nil"] := by rfl
+
+/-! ## Redirects, the default-name probe, the stored location, the git node -/
+
+/-- `HTTPNode.client`: the one client of an http node.  Its `CheckRedirect` refuses a hop to a URL
+whose scheme is `http` unless the node was created with `insecure` (`net … (.redirect to next)`,
+`Fail.insecureHop`), and otherwise keeps the default limit of ten redirects. -/
+theorem remote_httpClient_ok : Gen.Remote.httpClient = [
+    "return &http.Client{ CheckRedirect: func(‹0› *http.Request, ‹1› []*http.Request) error {",
+    "\\ if ‹0›.URL.Scheme == \"http\" && !node.insecure { return &errors.TaskfileNotSecureError{URI:",
+    "\\ ‹0›.URL.String()} } if len(‹1›) >= 10 { return errors.New(\"stopped after 10",
+    "\\ redirects\") } return nil }, }"] := by rfl
+
+/-- every place in package `taskfile` where an HTTP request is sent: the GET of `ReadContext` on ‹0›
+(= `node.client()`, `remote_httpReadContext_ok`) and the two HEAD requests of `RemoteExists` on the
+client it is handed (the same ‹0›) -/
+theorem remote_httpDoers_ok : Gen.Remote.httpDoers = [
+    "HTTPNode.ReadContext: ‹0›.Do(‹1›.WithContext(ctx))",
+    "RemoteExists: client.Do(‹0›)",
+    "RemoteExists: client.Do(‹0›)"] := by rfl
+
+/-- … and nothing in the package mentions `http.DefaultClient`, `http.DefaultTransport` or the
+convenience functions `http.Get/Head/Post`, which follow redirects unconditionally -/
+theorem remote_httpDefaultClientUses_ok : Gen.Remote.httpDefaultClientUses = [] := by rfl
+
+/-- `RemoteExists` (`Server.dir`, `landing`, `Fail.notFound`): HEAD on the URL; a transport error is
+the context's error if the context is dead, 105 for a refused redirect, else 103; status 200 with an
+allowed content type (a substring test: `text/yaml; charset=utf-8` passes) ⇒ the URL itself; otherwise
+the default names in order, each by the same request with the path joined — **only the status is
+looked at there, not the content type** (the model's `dir … (serve c)` covers a default name served
+with any type) —, the first 200 wins (`landing`), an error ends the probe the same way as above (the
+`ctx.Err()` test included: fix R8-6); none ⇒ 100. -/
+theorem remote_remoteExists_ok : Gen.Remote.remoteExists = [
+    "‹0›, ‹1› := http.NewRequestWithContext(ctx, \"HEAD\", u.String(), nil)",
+    "if ‹1› != nil",
+    "| return nil, errors.TaskfileFetchFailedError{URI: u.String()}",
+    "‹2›, ‹1› := client.Do(‹0›)",
+    "if ‹1› != nil",
+    "| if ctx.Err() != nil",
+    "| | return nil, fmt.Errorf(\"checking remote file: %w\", ctx.Err())",
+    "| if ‹3› := (&errors.TaskfileNotSecureError{}); errors.As(‹1›, &‹3›)",
+    "| | return nil, ‹3›",
+    "| return nil, errors.TaskfileFetchFailedError{URI: u.String()}",
+    "defer ‹2›.Body.Close()",
+    "‹4› := ‹2›.Header.Get(\"Content-Type\")",
+    "if ‹2›.StatusCode == http.StatusOK && slices.ContainsFunc(allowedContentTypes, func(‹5›",
+    "\\ string) bool { return strings.Contains(‹4›, ‹5›) })",
+    "| return u, nil",
+    "for range defaultTaskfiles",
+    "| if u.Path == \"\"",
+    "| | u.Path = \"/\"",
+    "| ‹6› := u.JoinPath(‹7›)",
+    "| ‹0›.URL = ‹6›",
+    "| ‹2›, ‹1› = client.Do(‹0›)",
+    "| if ‹1› != nil",
+    "| | if ctx.Err() != nil",
+    "| | | return nil, fmt.Errorf(\"checking remote file: %w\", ctx.Err())",
+    "| | if ‹8› := (&errors.TaskfileNotSecureError{}); errors.As(‹1›, &‹8›)",
+    "| | | return nil, ‹8›",
+    "| | return nil, errors.TaskfileFetchFailedError{URI: u.String()}",
+    "| defer ‹2›.Body.Close()",
+    "| if ‹2›.StatusCode == http.StatusOK",
+    "| | return ‹6›, nil",
+    "return nil, errors.TaskfileNotFoundError{URI: u.String(), Walk: false}"] := by rfl
+
+/-- the location stored with a cached copy is the node's URL after the fetch — `RemoteExists`' result
+(`remote_httpReadContext_ok`: `node.URL = ‹1›`) — and taking it back is `node.URL = …` again -/
+theorem remote_httpResolvedLocation_ok : Gen.Remote.httpResolvedLocation = [
+    "return node.URL.String()"] := by rfl
+
+theorem remote_httpSetResolvedLocation_ok : Gen.Remote.httpSetResolvedLocation = [
+    "if ‹0›, ‹1› := url.Parse(location); ‹1› == nil",
+    "| node.URL = ‹0›"] := by rfl
+
+/-- a missing `.location` file reads as the empty string (`Entry.loc = none`), which the reader
+ignores (`baseOf`: the node's own URL) -/
+theorem remote_readResolvedLocation_ok : Gen.Remote.readResolvedLocation = [
+    "‹0›, _ := os.ReadFile(node.resolvedLocationPath())",
+    "return string(‹0›)"] := by rfl
+
+theorem remote_writeResolvedLocation_ok : Gen.Remote.writeResolvedLocation = [
+    "if ‹0› := node.CreateCacheDir(); ‹0› != nil",
+    "| return ‹0›",
+    "return os.WriteFile(node.resolvedLocationPath(), []byte(location), 0o644)"] := by rfl
+
+/-- **every node's `ReadContext` uses its context**: the git node hands it to `git.CloneContext`
+(before fix R8-4 the parameter was `_` and the clone could not be interrupted by `--timeout`), the
+http node to the probe, to the GET and to the test that tells a timeout from another failure -/
+theorem remote_readContextUses_ok : Gen.Remote.readContextUses = [
+    "GitNode.ReadContext: git.CloneContext(ctx, ‹0›, ‹1›, &git.CloneOptions{ URL:",
+    "\\ node.URL.String(), ReferenceName: plumbing.ReferenceName(node.ref), SingleBranch: true, Depth:",
+    "\\ 1, })",
+    "HTTPNode.ReadContext: RemoteExists(ctx, ‹0›, node.URL)",
+    "HTTPNode.ReadContext: ‹1›.WithContext(ctx)",
+    "HTTPNode.ReadContext: ctx.Err()"] := by rfl
+
+theorem remote_gitReadContext_ok : Gen.Remote.gitReadContext = [
+    "‹0› := memfs.New()",
+    "‹1› := memory.NewStorage()",
+    "_, ‹2› := git.CloneContext(ctx, ‹1›, ‹0›, &git.CloneOptions{ URL: node.URL.String(),",
+    "\\ ReferenceName: plumbing.ReferenceName(node.ref), SingleBranch: true, Depth: 1, })",
+    "if ‹2› != nil",
+    "| return nil, ‹2›",
+    "‹3›, ‹2› := ‹0›.Open(node.path)",
+    "if ‹2› != nil",
+    "| return nil, ‹2›",
+    "‹4›, ‹2› := io.ReadAll(‹3›)",
+    "if ‹2› != nil",
+    "| return nil, ‹2›",
+    "return ‹4›, nil"] := by rfl
+
+/-- `NewGitNode`: both plaintext schemes — `http` and the git protocol — are refused without
+`--insecure` (`gate`, 105; before fix R8-5 only `http` was) -/
+theorem remote_newGitNode_ok : Gen.Remote.newGitNode = [
+    "‹0› := NewBaseNode(dir, opts...)",
+    "‹1›, ‹2› := giturls.Parse(entrypoint)",
+    "if ‹2› != nil",
+    "| return nil, ‹2›",
+    "‹3›, ‹4›, ‹5› := strings.Cut(‹1›.Path, \"//\")",
+    "if !‹5›",
+    "| return nil, &errors.TaskfileInvalidError{URI: entrypoint, Err: errors.New(\"git URL has no '//'",
+    "\\ separating the repository from the path of the Taskfile\")}",
+    "‹6› := ‹1›.Query().Get(\"ref\")",
+    "‹7› := ‹1›.String()",
+    "‹1›.RawQuery = \"\"",
+    "‹1›.Path = ‹3›",
+    "if (‹1›.Scheme == \"http\" || ‹1›.Scheme == \"git\") && !insecure",
+    "| return nil, &errors.TaskfileNotSecureError{URI: entrypoint}",
+    "return &GitNode{ BaseNode: ‹0›, URL: ‹1›, ‹7›: ‹7›, ‹6›: ‹6›, ‹4›:",
+    "\\ ‹4›, }, nil"] := by rfl
 
 end TaskModel.Remote
